@@ -165,7 +165,7 @@ func check(c Case, st *rig.Stats) error {
 }
 
 var stats = rig.NewStats("C01",
-	"rapid draws an interceptor set, a pool of 6-14 well-formed patterns (free rule pool, shared prefixes, sibling parameter branches), a history of 1-25 Handle/Remove/Clean steps and 1-4 probes (13 method spellings x paths derived from pool patterns with values over the literal and value alphabets and one-byte mutations) after every step; every non-404 answer must report a live route, the handler registered for (route, method) or the route's own built OPTIONS/405 handler, and params under which the independent conformance matcher reproduces the path byte for byte; 404 reports no params and no node. Non-trivial: a probe was dispatched to a route with >=1 parameter while another live route shares its text up to a parameter position, or ended in 404 after a parameter branch could be entered; distinct by hash of the case",
+	"rapid draws an interceptor set, a pool of 6-14 well-formed patterns (free rule pool, shared prefixes, sibling parameter branches), a history of 1-25 Handle/Remove/Clean steps and 1-4 probes (13 method spellings x paths derived from pool patterns with values over the literal and value alphabets and one-byte mutations) after every step; every non-404 answer must report a live route, the handler registered for (route, method) or the route's own built OPTIONS/405 handler, and params under which the independent conformance matcher reproduces the path byte for byte; 404 reports no params and no node. Non-trivial: a probe was dispatched to a route with >=1 parameter while another live route shares its text up to a parameter position, or ended in 404 after a parameter branch could be entered; distinct by hash of the case. Later additions to the generated domain: One pool in twelve holds a structure of unusual size (a node with 11-45 literal children, dozens of regexp siblings that are each tried and given up, routes with 9-34 parameters next to a catch-all); one history in five opens with a pattern, an extension of it and a Prefix.Clean between them. Interceptor sets include rule names that differ in letter case only; rules include '.+' and '\\\\d.\\\\d'; one parameter value in twenty is odd text (KELVIN SIGN, dotted / dotless i, long s, non-ASCII digits, invalid UTF-8, line breaks, NUL, separators, '%'); literal text may hold '%'.",
 	"paths '' and '*' and TRACE under WithTrace select the internal root node and are judged by C04/C05/C18, not here",
 	"panics are counted, not judged (C03/C05)")
 
